@@ -505,6 +505,24 @@ func (env *SpecEnv) call(e *SExpr) Val {
 			return scalar(Or(Eq(v.F[0].S, IntLit(0)), Not(Select(env.old.H(allocAKey, allocSort), v.F[0].S))), bt)
 		}
 		sfail("fresh() of %s", args[0])
+	case "unchanged":
+		// unchanged(m): the entries of map m are exactly those of the pre-state (raw rows)
+		need(1)
+		if env.old == nil {
+			sfail("unchanged() needs a pre-state")
+		}
+		v := env.eval(args[0])
+		if v.K != KScalar || v.T == nil {
+			sfail("unchanged() of %s", args[0])
+		}
+		if _, ok := v.T.Underlying().(*types.Map); !ok {
+			sfail("unchanged() expects a map: %s", args[0])
+		}
+		var cs []*Term
+		for _, lk := range (modLoc{kind: "map", ref: v.S, T: v.T}).keys() {
+			cs = append(cs, Eq(Select(env.cur.H(lk.key, lk.sort), v.S), Select(env.old.H(lk.key, lk.sort), v.S)))
+		}
+		return scalar(And(cs...), bt)
 	case "pre":
 		// value of an expression when the enclosing loop was entered
 		need(1)
